@@ -18,6 +18,9 @@ def isKnownBlocking (s : Site) : Bool := (keysOf s).any (fun k => knownBlocking.
 /-- sites that are neither released nor recorded — printed when the theorem below would fail -/
 def unclassified : List Site := sites.filter (fun s => !(siteOk s || isKnownBlocking s))
 
+def wgAddOk (a : WgAdd) : Bool :=
+  a.release == "go-defer" || a.release == "loop-go-defer" || wgReviewed.any (fun r => r.fn == a.fn && r.wg == a.wg)
+
 /-- Diagnostics only (not part of any proof): when a table check below is about to fail, name the offending rows in
 the build log, so that the broken obligation reported by bin/check says which site / step / entry it is. -/
 def diagnostics : List String :=
@@ -28,6 +31,11 @@ def diagnostics : List String :=
     "C17 order dependency violated: `" ++ nameOf d.1 ++ "` must come before `" ++ nameOf d.2.1 ++ "` (" ++ d.2.2 ++ ")")) ++
   ((discharge.filter (fun d => !sites.any d.covers)).map (fun d =>
     "C17 stale discharge entry (matches no extracted site): " ++ nameOf d.fn ++ ":" ++ nameOf d.chan)) ++
+  ((wgAdds.filter (fun a => !wgAddOk a)).map (fun a =>
+    "C17 unbalanced WaitGroup: " ++ nameOf a.wg ++ ".Add(" ++ a.count ++ ") in " ++ nameOf a.fn ++ " (" ++ a.file ++ ":" ++ toString a.line ++
+    ") is released by `" ++ a.release ++ "`, not by a goroutine's deferred Done, and has no reviewed entry")) ++
+  ((wgDones.filter (fun d => !wgDoneReviewed.any (fun r => r.1 == d.fn && r.2.1 == d.wg))).map (fun d =>
+    "C17 unreviewed explicit " ++ nameOf d.wg ++ ".Done() in " ++ nameOf d.fn ++ " (" ++ d.file ++ ":" ++ toString d.line ++ ")")) ++
   ((comps.filter (fun c => !closeBeforeWait stopEvents c)).map (fun c =>
     "C17 " ++ nameOf c.stopFn ++ " no longer closes " ++ nameOf c.quit ++ " before it waits"))
 
@@ -86,6 +94,19 @@ theorem C17_discharge_used :
     aliases.all (fun a => sites.any (fun s => s.fn == a.1 && s.alts.any (·.chan == a.2.1))) = true ∧
     calledFrom.all (fun e => sites.any (fun s => s.fn == e.1)) = true := by
   refine ⟨?_, ?_, ?_⟩ <;> decide +kernel
+
+/-- **WaitGroup balance**: every `wg.Add` of the shutdown-relevant files launches goroutine(s) that hand the slot back
+with a top-level `defer wg.Done()`, or is a reviewed entry (a slot released by a timer callback, by an explicit `Done`
+on some path, or not at all, needs one saying which path returns it on each outcome); every explicit `Done` is
+reviewed; a group declared "never waited for" has no Wait site; no entry is stale.  A `Stop` that waits on a group
+with an unreturned slot never returns. -/
+theorem C17_waitgroup_balanced :
+    wgAdds.all wgAddOk = true ∧
+    wgDones.all (fun d => wgDoneReviewed.any (fun r => r.1 == d.fn && r.2.1 == d.wg)) = true ∧
+    wgReviewed.all (fun r => wgAdds.any (fun a => a.fn == r.fn && a.wg == r.wg && a.release != "go-defer" && a.release != "loop-go-defer") &&
+      (!r.unwaited || !sites.any (fun s => s.kind == "wait" && s.alts.any (·.chan == r.wg)))) = true ∧
+    wgDoneReviewed.all (fun r => wgDones.any (fun d => d.fn == r.1 && d.wg == r.2.1)) = true := by
+  refine ⟨?_, ?_, ?_, ?_⟩ <;> decide +kernel
 
 /-- the quit channels the table recognises are exactly channels some Stop method closes -/
 theorem C17_quits_are_closed : comps.all (fun c => stopClosed.contains c.quit) = true := by decide +kernel
